@@ -136,6 +136,7 @@ class SinexTmsParser(SinexParser):
             usecols=usecols,
             converters=converters,
             autostrip=True,
+            comments=None,  # '#' is an ordinary character in SINEX, comment lines start with '*' and are already removed
             encoding=self.file_encoding or "bytes",  # TODO: Use None instead
         )
 
